@@ -199,6 +199,48 @@ pub fn build_gnu_case(rng: &mut Rng, is64: bool, le: bool, nnames: usize, nbucke
     HashCase { symtab, strtab, hash, names: ordered, first_hashed: symoffset as usize }
 }
 
+/// the same constructions over a caller-chosen name set (collision families, names with extreme hash values)
+pub fn build_sysv_case_named(rng: &mut Rng, is64: bool, le: bool, given: &[Vec<u8>], nbucket: u32, order: u64) -> HashCase {
+    let mut names = vec![vec![]];
+    names.extend(given.iter().cloned());
+    let (strtab, offs) = build_strtab(&names);
+    let syms: Vec<SymSpec> = names.iter().enumerate().map(|(i, n)| default_sym(n, i)).collect();
+    let symtab = build_symtab(is64, le, &syms, &offs);
+    let hash = match order % 3 {
+        0 => build_sysv_hash(le, nbucket, &names),
+        1 => build_sysv_hash_ordered(le, nbucket, &names, 1, &[]),
+        _ => {
+            let mut perm: Vec<usize> = (1..names.len()).collect();
+            for i in (1..perm.len()).rev() { let j = rng.below(i as u64 + 1) as usize; perm.swap(i, j); }
+            build_sysv_hash_ordered(le, nbucket, &names, 2, &perm)
+        }
+    };
+    HashCase { symtab, strtab, hash, names, first_hashed: 1 }
+}
+
+pub fn build_gnu_case_named(is64: bool, le: bool, given: &[Vec<u8>], nbucket: u32, nbloom: u32, shift: u32, symoffset: u32) -> HashCase {
+    let mut names = vec![vec![]];
+    names.extend(given.iter().cloned());
+    let symoffset = symoffset.max(1).min(names.len() as u32);
+    let (hash, order) = build_gnu_hash(is64, le, nbucket, nbloom, shift, symoffset, &names);
+    let ordered: Vec<Vec<u8>> = order.iter().map(|&i| names[i].clone()).collect();
+    let (strtab, offs) = build_strtab(&ordered);
+    let syms: Vec<SymSpec> = ordered.iter().enumerate().map(|(i, n)| default_sym(n, i)).collect();
+    let symtab = build_symtab(is64, le, &syms, &offs);
+    HashCase { symtab, strtab, hash, names: ordered, first_hashed: symoffset as usize }
+}
+
+/// names whose hashes collide in full (same 32-bit GNU hash / same 28-bit SysV hash), names whose GNU hash is 0 or 1
+/// (a chain word of zero is a legitimate entry), names that saturate the running SysV hash
+pub fn collision_family(gnu: bool) -> Vec<Vec<u8>> {
+    let v: Vec<&[u8]> = if gnu {
+        vec![b"ab", b"bA", b"foo_ab_bar", b"foo_bA_bar", b"get_value", b"get_vbKue", b"get_valvD", b"agmtavdw", b"axakfuqj", b"agmtavdx", b"plain", b"other"]
+    } else {
+        vec![b"aq", b"ba", b"init_aq", b"init_ba", b"x1", b"wA", b"dFykHtPlnC", b"pIikL1wOy", b"plain", b"other"]
+    };
+    v.into_iter().map(|x| x.to_vec()).collect()
+}
+
 fn absent_names(rng: &mut Rng, present: &[Vec<u8>], nbucket: u32, gnu: bool) -> Vec<Vec<u8>> {
     let mut v = vec![];
     let is_present = |n: &Vec<u8>| present.iter().any(|p| p == n);
@@ -254,6 +296,45 @@ pub fn gen_hash(kind: &str, rng: &mut Rng, n: usize, thorough: bool) -> Vec<Case
         let l = rng.range(4, 40) as usize;
         let s: Vec<u8> = (0..l).map(|_| match rng.below(4) { 0 => rng.range(0x80, 0xff) as u8, _ => rng.range(0x20, 0x7e) as u8 }).collect();
         out.push((format!("hashfn {} {}", kind, hex(&s)), "-".into()));
+    }
+    // inputs that drive the running hash to its extremes: runs of one byte value (0xff, 0x7f, 0x0f, 0x80, 0x01, 0x00) of
+    // every length up to 24, a saturating prefix followed by each interesting byte, and the collision / zero-hash families
+    for b in [0xffu8, 0x7f, 0x0f, 0x80, 0x01, 0x00, 0xf0, b'z'] {
+        for l in 1..=24usize {
+            out.push((format!("hashfn {} {}", kind, hex(&vec![b; l])), "extreme".into()));
+        }
+        for l in [6usize, 7, 8] {
+            for last in [0x00u8, 0x01, 0x0f, 0x10, 0x7f, 0x80, 0xf0, 0xff] {
+                let mut v = vec![b; l]; v.push(last);
+                out.push((format!("hashfn {} {}", kind, hex(&v)), "extreme".into()));
+            }
+        }
+    }
+    for nm in collision_family(gnu) {
+        out.push((format!("hashfn {} {}", kind, hex(&nm)), "extreme".into()));
+    }
+    // tables over the collision family: every member looked up, alone and in sequences on one table value (a lookup is a
+    // pure function of its arguments: no answer may depend on the lookups made before it), with absent twins in between
+    for (ci, (is64, le)) in [(false, false), (false, true), (true, false), (true, true)].into_iter().enumerate() {
+        let fam = collision_family(gnu);
+        for nbucket in [1u32, 2, 3, 7] {
+            let case = if gnu { build_gnu_case_named(is64, le, &fam, nbucket, 2, 5 + nbucket, 1) }
+                       else { build_sysv_case_named(rng, is64, le, &fam, nbucket, ci as u64 + nbucket as u64) };
+            for nm in &fam {
+                out.push((format!("{} {} {} {} {} {} {}", kind, le as u8, cls(is64), hex(&case.symtab), hex(&case.strtab), hex(nm), hex(&case.hash)), "wf=1|present|family".into()));
+            }
+            let absent: Vec<Vec<u8>> = if gnu { vec![b"ba".to_vec(), b"Ab".to_vec()] } else { vec![b"bb".to_vec(), b"qa".to_vec()] };
+            let mut seq: Vec<Vec<u8>> = vec![];
+            for w in fam.windows(2) { seq.push(w[0].clone()); seq.push(w[1].clone()); seq.push(w[0].clone()); }
+            seq.extend(absent.iter().cloned());
+            seq.extend(fam.iter().rev().cloned());
+            let joined: Vec<String> = seq.iter().map(|n| hex(n)).collect();
+            out.push((format!("{}m {} {} {} {} {} {}", kind, le as u8, cls(is64), hex(&case.symtab), hex(&case.strtab), joined.join("."), hex(&case.hash)), "family|sequence".into()));
+            // one name a hundred times, then the others: a threshold on the number of lookups made on one table value
+            let mut many: Vec<String> = vec![hex(&fam[0]); 100];
+            many.extend(fam.iter().map(|n| hex(n)));
+            out.push((format!("{}m {} {} {} {} {} {}", kind, le as u8, cls(is64), hex(&case.symtab), hex(&case.strtab), many.join("."), hex(&case.hash)), "family|many".into()));
+        }
     }
     for k in 0..n {
         let is64 = rng.below(2) == 0;
@@ -564,6 +645,12 @@ pub fn gen_symver(rng: &mut Rng, n: usize, thorough: bool) -> Vec<Case> {
         for v in &m.versym { put(&mut vs, le, 2, *v as u64); }
         let mut idxs: Vec<String> = (0..m.versym.len() + 2).map(|i| i.to_string()).collect();
         idxs.push(u64::MAX.to_string());
+        if k % 7 == 3 {
+            // many queries on one table value (a threshold on the number of lookups an object has answered): the whole
+            // index list again and again, well past a hundred queries; every answer must be the first pass's answer
+            let once = idxs.clone();
+            while idxs.len() < 140 { idxs.extend(once.iter().cloned()); }
+        }
         let has_needs = !m.needs.is_empty() || rng.chance(1, 3);
         let has_defs = !m.defs.is_empty() || rng.chance(1, 3);
         let corrupt = k % 6 == 5;
